@@ -470,6 +470,17 @@ pub fn extreme_case<T: Sc>(rng: &mut Rng, idx: usize) -> StateCase<T> {
         hist.push(a);
     }
     c.history = hist;
+    // one in five: consecutive updates that differ ONLY in the sign of a zero parameter (+0 -> -0 -> +0,
+    // equal under `==`, different numbers: 1/x, atan2, copysign tell them apart): the state must follow
+    if idx % 5 == 4 {
+        let k = rng.below(p);
+        let mut a: Vec<T> = random_alpha(rng, p).iter().map(|v| T::of(*v)).collect();
+        let ordinary = a.clone();
+        a[k] = T::of(0.0);
+        let mut b = a.clone();
+        b[k] = T::of(-0.0);
+        c.history = vec![ordinary.clone(), a.clone(), b.clone(), a, ordinary, b];
+    }
     // one in five: FINITE basis matrices at the edge of the floating point range (the SVD routine
     // itself can break down there), between ordinary parameters
     if idx % 5 == 2 {
